@@ -72,6 +72,24 @@ int main(int argc, char** argv) {
         dw = (w2.dim() == r) ? 0 : 1; for (int i = 1; dw == 0 && i <= r; i++) dw = std::max(dw, std::fabs(w2(i) - w2m(i)));
         chk("vec_transmat", dw, 1e-12, "v * trans(A) differs from trans(A v)");
       }
+      // transposed vectors
+      {
+        DVec vr(r); for (int i = 1; i <= r; i++) vr(i) = 2 - i;
+        DVec vk(k); for (int i = 1; i <= k; i++) vk(i) = i + 1;
+        double dot = 0; for (int i = 1; i <= r; i++) dot += vr(i) * vr(i);
+        chk("transvec_dot", std::fabs(double(trans(vr) * vr) - dot), 1e-12, "trans(v) * v differs from the sum of squares");
+        DVec a1 = trans(trans(vr) * A);                                  // v' A   (Mat operand)
+        DVec a1m = At * vr;
+        double d1 = (a1.dim() == k) ? 0 : 1; for (int i = 1; d1 == 0 && i <= k; i++) d1 = std::max(d1, std::fabs(a1(i) - a1m(i)));
+        chk("transvec_mat", d1, 1e-12, "trans(v) * A differs from trans(trans(A) * v)");
+        const GNU_gama::MatBase<double, int, Exc>& Ab = A;                // the MatBase overload
+        DVec a2 = trans(trans(vr) * Ab);
+        double d2 = (a2.dim() == k) ? 0 : 1; for (int i = 1; d2 == 0 && i <= k; i++) d2 = std::max(d2, std::fabs(a2(i) - a1m(i)));
+        chk("transvec_matbase", d2, 1e-12, "trans(v) * A (MatBase operand) differs from trans(trans(A) * v)");
+        DVec s1 = trans(trans(vk) + trans(vk));
+        double d3 = 0; for (int i = 1; i <= k; i++) d3 = std::max(d3, std::fabs(s1(i) - 2 * vk(i)));
+        chk("transvec_sum", d3, 0, "trans(v) + trans(v) != 2 v");
+      }
       // non-conforming operands
       if (k != r || c != k) {
         if (A.cols() != A.rows() || true) {
